@@ -351,7 +351,7 @@ def residuals(rc):
 _PD_BOOL = '    if boolean:\n        return p_value >= kwargs["significance_level"]\n    else:\n        return chi, p_value, dof'
 
 
-@rule("C19.defuse", "anchored files: every parameter is read, no value is computed and dropped (generic def-use detectors, triaged hit list)", floor=2)
+@rule("C19.defuse", "anchored files: no parameter is accepted and ignored (generic def-use detector, triaged exemptions)", floor=2)
 def defuse(rc):
     from . import shared as _sh
     _sh.defuse_rule(rc, _sh.anchor_files("C19"))
